@@ -14,6 +14,11 @@ import (
 type canonParser struct {
 	s string
 	i int
+	// nilMode > 0: the k-th `~` of the text (k = 0, 1, …) becomes, by (k + nilMode) mod 3, the nil interface (0), a nil
+	// []interface{} inside an interface (1) or a nil map[string]interface{} inside an interface (2) — the three Go values
+	// GoVal.nil stands for (decodeArray's `return nil` reaches the exporters as the second)
+	nilMode  int
+	nilCount int
 }
 
 func isHex(c byte) bool { return c >= '0' && c <= '9' || c >= 'a' && c <= 'f' }
@@ -64,6 +69,16 @@ func (p *canonParser) val() interface{} {
 	p.i++
 	switch c {
 	case '~':
+		k := p.nilCount
+		p.nilCount++
+		if p.nilMode > 0 {
+			switch (k + p.nilMode) % 3 {
+			case 1:
+				return []interface{}(nil)
+			case 2:
+				return map[string]interface{}(nil)
+			}
+		}
 		return nil
 	case 'T':
 		return true
@@ -140,9 +155,11 @@ func toInt64(v interface{}) int64 {
 }
 
 // decodeDump turns the coded dump [[oid, name, [[name, rowCount, [[name, type, typID]…], [row…]]…]]…] into pgread's structs.
-func decodeDump(s string) *pgdump.DumpResult {
+func decodeDump(s string, nilMode string) *pgdump.DumpResult {
 	r := &pgdump.DumpResult{}
-	for _, dv := range parseCanon(s).([]interface{}) {
+	p := &canonParser{s: s}
+	p.nilMode, _ = strconv.Atoi(nilMode)
+	for _, dv := range p.val().([]interface{}) {
 		d := dv.([]interface{})
 		db := pgdump.DatabaseDump{OID: uint32(toInt64(d[0])), Name: d[1].(string)}
 		for _, tv := range d[2].([]interface{}) {
